@@ -331,7 +331,7 @@ def main(ctx):
     ctx.pmap(fixed_worker, [(p, t, ["-O1", "-feof-support"], known, ml) for p in FIXED for t in ("T1", "T2", "T3", "T4")]
              + [(p, "T1", ["-O3"], known, ml) for p in FIXED_O3])
     n = 40 if quick else 600
-    stop_at = time.time() + (70 if quick else 1500)
+    stop_at = time.time() + (70 if quick else 900)
     ctx.pmap(worker, [(ctx.seed * 100003 + i, n, known, stop_at, ml) for i in range(common.NPROC)])
     ctx.rule = ("case = (wait pattern: literals with internal periodicity, casei, closed regexes, concatenations; templates T1-T4 (plain / in a try / behind a negated-class lead-in); -O level; EOF on/off). "
                 "Per case: exact product search of the compiled `wait P` against the restart automaton over 256 bytes, then every input up to length %d "
